@@ -22,9 +22,9 @@ from fractions import Fraction as F
 import numpy as np
 
 PROP = 'C03'
-TARGETS = ['T2', 'T3', 'TC03pyr', 'TC03stack', 'TC03segvol', 'TC03imgvol', 'TC03wireV', 'TC03wireI', 'TC03wireS', 'TC03single', 'TC03getitem', 'TC03volpos', 'TC03rot']
+TARGETS = ['T2', 'T3', 'TC03pyr', 'TC03stack', 'TC03segvol', 'TC03imgvol', 'TC03wireV', 'TC03wireI', 'TC03wireS', 'TC03single', 'TC03getitem', 'TC03volpos', 'TC03rot', 'TC03loop', 'TC03idxval', 'TC03dist']
 LEAN_MODULES = ['HdVerif.Props.C03']
-MODEL_MODULES = ['HdVerif.Model.SegGeom']
+MODEL_MODULES = ['HdVerif.Model.SegGeom', 'HdVerif.Model.SegFrames']
 NAMESPACE = 'HdVerif.C03'
 DRIVER = 'Drivers/C03.lean'
 RULE = ('streams: vol = Segmentation(pixel_array=Volume) with a random admissible affine (48 signed-permutation or oblique '
@@ -421,7 +421,8 @@ def repeated_reads(ctx, descr, obj, get_volume, kw, first, r, site):
 SEG_ENTRIES = ['segread', 'Segmentation.from_dataset', 'imread', 'Image.from_dataset']
 
 
-def roundtrip_seg_checks(ctx, descr, seg, rv, planes_lab, planes_cha, overlap, rowcos, colcos, ps, exact, seg_type, geom_ref, site):
+def roundtrip_seg_checks(ctx, descr, seg, rv, planes_lab, planes_cha, overlap, rowcos, colcos, ps, exact, seg_type, geom_ref, site,
+                         frames_full=None):
     """The same segmentation after a bytes round trip through one parsing entry point: positions, pixels and the reported
     geometry must be what the in-memory object gave."""
     entry = rv.choice(SEG_ENTRIES)
@@ -430,6 +431,15 @@ def roundtrip_seg_checks(ctx, descr, seg, rv, planes_lab, planes_cha, overlap, r
     if st != 'ok':
         ctx.fail(dict(descr, entry=entry), f'written segmentation cannot be read back: {obj}', site=site + '/reread')
         return
+    if frames_full is not None:
+        # per-frame positions, segment numbers and DimensionIndexValues survive the file round trip frame by frame
+        stf, after = _fetch(stored_frames_full, obj)
+        if stf != 'ok' or (after != frames_full if exact else len(after) != len(frames_full) or any(
+                x['seg'] != y['seg'] or x['div'] != y['div'] or not vclose([F(v) for v in x['pos']], [F(v) for v in y['pos']], F(1, 10 ** 9))
+                for x, y in zip(after, frames_full))):
+            ctx.fail(dict(descr, entry=entry), {'what': 'per-frame segment / position / DimensionIndexValues differ after the round trip',
+                                                'after': after if stf != 'ok' else after[:4], 'before': frames_full[:4]},
+                     site=site + '/reread/frames')
     if entry in ('segread', 'Segmentation.from_dataset'):
         label, kw, planes = ('channels', dict(), planes_cha) if overlap else ('combined', dict(combine_segments=True), planes_lab)
         stv, v = _fetch(obj.get_volume, **kw)
@@ -657,6 +667,106 @@ def shared_geom(seg):
     return iop, ps, sbs
 
 
+def stored_frames_full(seg):
+    """L1 view of every stored frame, in stored order: ReferencedSegmentNumber (None for a label map), ImagePositionPatient
+    (exact rationals as strings), DimensionIndexValues."""
+    out = []
+    for f in seg.PerFrameFunctionalGroupsSequence:
+        pos = [rstr(fr(x)) for x in f.PlanePositionSequence[0].ImagePositionPatient]
+        sn = None
+        if 'SegmentIdentificationSequence' in f:
+            sn = int(f.SegmentIdentificationSequence[0].ReferencedSegmentNumber)
+        div = f.FrameContentSequence[0].DimensionIndexValues
+        div = [int(div)] if isinstance(div, (int, np.integer)) else [int(x) for x in div]
+        out.append({'seg': sn, 'pos': pos, 'div': div})
+    return out
+
+
+def frames_oracle(seg, full, all_pos, lab, cha, rowcos, colcos, seg_type, exact):
+    """Independent statement about the stored frames: every frame sits at the position of exactly one input plane and carries
+    that plane's pixels (of its segment); no two frames share (segment, position) or their DimensionIndexValues; frames are
+    stored in ascending DimensionIndexValues; the position index counts the distinct stored positions 1..K in the order of
+    their distance along the right-handed normal cross(column cosines, row cosines); the segment entry is the
+    ReferencedSegmentNumber.  Returns complaints."""
+    tol = F(0) if exact else F(1, 10 ** 6)
+    bad = []
+    n = [colcos[1] * rowcos[2] - colcos[2] * rowcos[1], colcos[2] * rowcos[0] - colcos[0] * rowcos[2],
+         colcos[0] * rowcos[1] - colcos[1] * rowcos[0]]
+    st, px = _fetch(lambda: np.asarray(seg.pixel_array))
+    if st == 'ok':
+        px = px.reshape((-1, int(seg.Rows), int(seg.Columns)))
+        if px.shape[0] != len(full):
+            bad.append(f'{px.shape[0]} frames of pixels for {len(full)} per-frame items')
+            px = None
+    else:
+        px = None
+    seen, divs, plane_of = set(), [], []
+    for i, f in enumerate(full):
+        pos = [F(x) for x in f['pos']]
+        hit = [k for k, q in enumerate(all_pos) if vclose(pos, q, tol)]
+        if len(hit) != 1:
+            bad.append(f'frame {i} at {f["pos"]} lies at {len(hit)} input planes')
+            plane_of.append(None)
+            continue
+        k = hit[0]
+        plane_of.append(k)
+        if (f['seg'], k) in seen:
+            bad.append(f'two frames for segment {f["seg"]} and input plane {k}')
+        seen.add((f['seg'], k))
+        if seg_type == 'LABELMAP':
+            if f['seg'] is not None or len(f['div']) != 1:
+                bad.append(f'label map frame {i} with segment {f["seg"]} / index values {f["div"]}')
+            want = lab[k]
+            got = None if px is None else px[i].astype(np.int64)
+        else:
+            if f['seg'] is None or len(f['div']) != 2 or f['div'][0] != f['seg']:
+                bad.append(f'frame {i}: segment {f["seg"]} but index values {f["div"]}')
+                continue
+            want = cha[k, :, :, f['seg'] - 1] if 1 <= f['seg'] <= cha.shape[3] else None
+            got = None if px is None else (px[i] != 0).astype(np.int64)
+        if want is None:
+            bad.append(f'frame {i} references segment {f["seg"]} that was not described')
+        elif got is not None and not np.array_equal(got, np.asarray(want).astype(np.int64)):
+            bad.append(f'frame {i} is recorded at the position of input plane {k} (segment {f["seg"]}) but carries other pixels')
+        divs.append((tuple(f['div']), sum(a * b for a, b in zip(n, pos))))
+    if len({d for d, _ in divs}) != len(divs):
+        bad.append('DimensionIndexValues are not unique among the frames')
+    if any(not (a[0] < b[0]) for a, b in zip(divs, divs[1:])):
+        bad.append(f'frames are not stored in ascending DimensionIndexValues: {[list(d) for d, _ in divs]}')
+    # position index = rank of the distance among the distinct stored positions
+    dists = sorted({d for _, d in divs})
+    for dv, dist in divs:
+        want_idx = 1 + dists.index(dist)
+        if dv[-1] != want_idx:
+            bad.append(f'position index {dv[-1]} of a frame at distance {float(dist)} along the normal; {want_idx} of {len(dists)} stored positions expected')
+            break
+    return bad
+
+
+def frames_l1(ctx, descr, seg, all_pos, iop, lab, cha, arr, nseg, seg_type, exact, rowcos, colcos, reqs, pending, site):
+    """Frame loop of the constructor: oracle on the stored frames + L1 comparison with the model (`segFrames`)."""
+    st, full = _fetch(stored_frames_full, seg)
+    if st != 'ok':
+        ctx.fail(descr, f'stored frames cannot be listed: {full}', site=site + '/frames')
+        return None
+    for b in frames_oracle(seg, full, all_pos, lab, cha, rowcos, colcos, seg_type, exact)[:3]:
+        ctx.fail(descr, b, site=site + '/frames')
+    ctx.case(stream=descr['stream'] + '/frames', frames=min(len(full), 12), type=seg_type, omit=descr['omit'],
+             skipped_frames=(seg_type != 'LABELMAP' and len(full) < nseg * len({tuple(f['pos']) for f in full})),
+             nontrivial_key=(descr['stream'], 'frames', len(full), seg_type, descr['omit'], nseg, descr.get('h'), descr.get('order_mode'))
+             if len(full) > 1 else None)
+    if exact:
+        n0 = len(all_pos)
+        present = [[bool(cha[k, :, :, s_].any()) for k in range(n0)] for s_ in range(nseg)]
+        reqs.append(('segFrames', {'iop': [rstr(x) for x in iop], 'pos': [[rstr(x) for x in p_] for p_ in all_pos],
+                                   'described': list(range(1, nseg + 1)), 'present': present,
+                                   'flags': [bool(np.asarray(arr[k]).any()) for k in range(n0)], 'omit': bool(descr['omit']),
+                                   'labelmap': seg_type == 'LABELMAP'}))
+        pending.append((dict(descr, what='stored frames: segment, position, DimensionIndexValues in stored order', layer='L1',
+                             model_drop=['plane']), ('ok', full)))
+    return full
+
+
 def model_store_req(g, n0, included, flags=None, omit=None):
     args = {'d': [[rstr(x) for x in _col(g['d'], j)] for j in range(3)], 's': [rstr(x) for x in g['s']],
             'p': [rstr(x) for x in g['p']], 'n0': n0, 'ks': list(included)}
@@ -800,6 +910,9 @@ def check_vol_case(ctx, descr, g, arr, mk, reqs, pending):
         pending.append((dict(descr, what='stored positions/orientation/measures', layer='L1'),
                         ('ok', {'pos': [[rstr(x) for x in p] for p in sorted(stored_pos)], 'iop': [rstr(x) for x in iop],
                                 'ps': [rstr(x) for x in psx], 'sbs': rstr(sbs) if sbs is not None else None})))
+    # ---- L1: the frames of the constructor's loop (segment, position, DimensionIndexValues, pixels of the right plane)
+    frames_full = frames_l1(ctx, descr, seg, [apply_aff(a, (k, 0, 0)) for k in range(shape[0])], iop, lab, cha, arr, nseg, seg_type,
+                            exact, rowcos, colcos, reqs, pending, 'Segmentation.__init__')
     # ---- L0: geometry + volumes
     stg, geom = _fetch(seg.get_volume_geometry)
     if stg != 'ok' or geom is None:
@@ -854,7 +967,8 @@ def check_vol_case(ctx, descr, g, arr, mk, reqs, pending):
     rv = ctx.rng(descr['stream'] + 'var2', descr['idx'])
     if full is not None:
         repeated_reads(ctx, descr, seg, seg.get_volume, full_kw, full, rv, 'get_volume')
-    roundtrip_seg_checks(ctx, descr, seg, rv, planes_lab, planes_cha, overlap, rowcos, colcos, ps, exact, seg_type, geom, 'get_volume')
+    roundtrip_seg_checks(ctx, descr, seg, rv, planes_lab, planes_cha, overlap, rowcos, colcos, ps, exact, seg_type, geom, 'get_volume',
+                         frames_full=frames_full)
     # ---- sub-volumes of this object
     if full is not None:
         for j in range(3):
@@ -1065,6 +1179,8 @@ def check_src_case(ctx, descr, geo, arr, mk, src, reqs, pending):
                     dict(descr, what='stored positions/orientation/measures (aligned)', layer='L1'),
                     ('ok', {'pos': [[rstr(x) for x in p] for p in sorted(stored_pos)], 'iop': [rstr(x) for x in iop],
                             'ps': [rstr(x) for x in psx], 'sbs': rstr(sbs) if sbs is not None else None}))
+    frames_full = frames_l1(ctx, descr, seg, positions, iop, lab, cha, arr, nseg, seg_type, exact, rowcos, colcos, reqs, pending,
+                            'Segmentation.__init__')
     # stored planes that do not sit at whole multiples of their smallest gap are no volume: refusal is right then
     may_refuse = False
     if sbs is None and descr.get('gaps'):
@@ -1115,7 +1231,7 @@ def check_src_case(ctx, descr, geo, arr, mk, src, reqs, pending):
     if not may_refuse:
         roundtrip_seg_checks(ctx, descr, seg, rv, [(positions[k], lab[k]) for k in range(descr['n'])],
                              [(positions[k], cha[k]) for k in range(descr['n'])], overlap, rowcos, colcos, ps, exact, seg_type,
-                             geom, 'get_volume')
+                             geom, 'get_volume', frames_full=frames_full)
     if full is not None:
         for j in range(2):
             req0 = rand_request(r, full.spatial_shape)
@@ -1971,6 +2087,8 @@ def _compare(ctx, pending, answers):
             ctx.disagree(layer, case, impl, model, 'ok-vs-error: ' + str(case.get('what', case.get('helper', ''))))
         elif impl[0] == 'ok':
             a, b = impl[1], model[1]
+            if case.get('model_drop') and isinstance(b, list):
+                b = [{k: v for k, v in it.items() if k not in case['model_drop']} if isinstance(it, dict) else it for it in b]
             if case.get('tol'):
                 same = all(close(F(x), F(y), F(1, 10 ** 9)) for x, y in zip(a, b)) and len(a) == len(b)
             elif isinstance(a, dict) and isinstance(b, dict):
